@@ -696,6 +696,17 @@ class Gen:
             self.prog.emit(f"{name} = {inner.src}")
             s = self.prog.spec("wrap", repr(name), [inner], w=w, name=name)
             return s
+        if w == "strref_dotted":
+            # the target is an attribute of a class (as a nested class is), one or two levels down: "Holder.Member"
+            holder = self.prog.fresh("Holder")
+            two = self.rng.random() < 0.3
+            self.prog.emit(f"class {holder}:\n    class Sub:\n        pass\n")
+            path = f"{holder}.Sub.Member" if two else f"{holder}.Member"
+            self.prog.emit(f"{path} = {inner.src}")
+            return self.prog.spec("wrap", repr(path), [inner], w=w, name=path)
+        if w == "strexpr":
+            # the type's own source text as the reference ("dict[str, decimal.Decimal]")
+            return self.prog.spec("wrap", repr(inner.src), [inner], w=w, name=None)
         if w == "fwdref":
             name = self.prog.fresh("FR")
             self.prog.emit(f"{name} = {inner.src}")
